@@ -262,7 +262,8 @@ def c07(run):
     q = run.quick
     mc_and_replay(run, "scripts", 7 if q else 8, ALL_INV, ["direct"], cap=4000 if q else 40000)
     # every script of <= 2 (quick) / <= 3 (thorough) compound instructions over a 12-letter alphabet
-    mc_and_replay(run, "scripts2" if q else "scripts3", 6 if q else 7, ALL_INV, ["direct"], cap=4000 if q else 60000)
+    # (scripts3 at 6 actions is 20 M states; at 7 it does not finish in an hour)
+    mc_and_replay(run, "scripts2" if q else "scripts3", 6, ALL_INV, ["direct"], cap=4000 if q else 60000)
     random_round(run, "script", run.seed, 1000 if q else 10000, ["direct", "stream"], "script", 2, 18,
                  budget=8 if q else 10, selftest=True)
     # task-to-task channels: pipes up and down, select / join over a channel, an evicted or aborted sender
@@ -282,7 +283,7 @@ def c06(run):
     run.assumptions = BASE_ASSUME
     q = run.quick
     mc_and_replay(run, "scripts", 6 if q else 8, ALL_INV, ["direct", "core"], cap=3000 if q else 30000)
-    mc_and_replay(run, "scripts2" if q else "scripts3", 6, ALL_INV, ["direct"], cap=3000 if q else 40000)
+    mc_and_replay(run, "scripts2" if q else "scripts3", 6 if q else 5, ALL_INV, ["direct"], cap=3000 if q else 40000)
     mc_and_replay(run, "cmd1", 5 if q else 6, ALL_INV, ["direct", "core"], cap=3000 if q else 30000)
     # abort / drop heavy random schedules (gencases draws p_abort, p_drop per case)
     random_round(run, "cancel", run.seed, 1000 if q else 10000, ["direct", "core"], "mixed", 3, 18, selftest=True)
